@@ -10,3 +10,5 @@ open PebblesVerif.SubEntry
 #print axioms C17_errors_forwarded_partial
 #print axioms PebblesVerif.C17_flat_event_stitched
 #print axioms PebblesVerif.C17_flat_event_stitched_instance
+#print axioms PebblesVerif.C17_flat_history_stitched
+#print axioms PebblesVerif.C17_flat_history_stitched_instance
